@@ -193,6 +193,19 @@ func c10Hammer(r *R) {
 		return
 	}
 	// tree consistency at quiescence
+	if !treeConsistent(r, sysI, "C10") {
+		return
+	}
+	if err := w.Stop(30 * time.Second); err != nil {
+		r.Fail("C10/stop-failed", "Stop returned %v after the hammering", err)
+		return
+	}
+	vsimrt.SettleFor(time.Second)
+}
+
+// treeConsistent checks the actor tree at quiescence: every registered context is listed by its registered parent and
+// vice versa, and nobody is half-stopped.
+func treeConsistent(r *R, sysI *actor.System, prop string) bool {
 	vsimrt.Fence()
 	ctxs := actor.VsimContexts(sysI)
 	byPath := map[string]actor.VsimCtxInfo{}
@@ -209,8 +222,8 @@ func c10Hammer(r *R) {
 		if p != "/" {
 			par, ok := byPath[c.Parent]
 			if !ok {
-				r.Fail("C10/tree-orphan parent-not-registered", "%s is registered but its parent %s is not", p, c.Parent)
-				return
+				r.Fail(prop+"/tree-orphan parent-not-registered", "%s is registered but its parent %s is not", p, c.Parent)
+				return false
 			}
 			found := false
 			for _, k := range par.Children {
@@ -219,32 +232,28 @@ func c10Hammer(r *R) {
 				}
 			}
 			if !found && c.State != 2 {
-				cls := "C10/tree-orphan not-in-parents-children"
+				cls := prop+"/tree-orphan not-in-parents-children"
 				if c.Parent == "/" {
 					cls += " top-level"
 				}
 				r.Fail(cls, "%s (state %d) is registered but its parent %s does not list it among its children %v", p, c.State, c.Parent, par.Children)
-				return
+				return false
 			}
 		}
 		for _, k := range c.Children {
 			if _, ok := byPath[k]; !ok {
-				cls := "C10/tree-dangling-child"
+				cls := prop+"/tree-dangling-child"
 				if p == "/" {
 					cls += " top-level"
 				}
 				r.Fail(cls, "%s lists %s among its children but no such actor is registered", p, k)
-				return
+				return false
 			}
 		}
 		if p != "/" && c.State == 1 {
-			r.Fail("C10/half-stopped", "%s is still in the killing state at quiescence (waits for %v)", p, c.Children)
-			return
+			r.Fail(prop+"/half-stopped", "%s is still in the killing state at quiescence (waits for %v)", p, c.Children)
+			return false
 		}
 	}
-	if err := w.Stop(30 * time.Second); err != nil {
-		r.Fail("C10/stop-failed", "Stop returned %v after the hammering", err)
-		return
-	}
-	vsimrt.SettleFor(time.Second)
+	return true
 }
